@@ -74,12 +74,15 @@ Definition c08_rel_stale_dot (u spec got : text) : bool :=
   rel_path_ref (five_of_text u) && same_but_path s g
   && negb (starts_with [46; 47] (f_path s)) && text_eqb (f_path g) (46 :: 47 :: f_path s).
 (* D7e: the kept "." is then cancelled by a following ".." as if it were a name:
-        "./b:c/../../x" gives "x" instead of "../x" *)
+        "./b:c/../../x" gives "x" instead of "../x".  Third form, since the repair of D14: what is left after the
+        eaten ".." begins with two empty segments and gets the guard's "." ("./b:c/../..//" gives ".//", not "..//"),
+        i.e. got = "./" ++ X and spec = "../" ++ X with X beginning with "/" *)
 Definition c08_rel_dot_eaten (u spec got : text) : bool :=
   let s := five_of_text spec in let g := five_of_text got in
   rel_path_ref (five_of_text u) && same_but_path s g
   && (text_eqb (f_path s) (46 :: 46 :: 47 :: f_path g)
-      || (text_eqb (f_path s) [46; 46] && match f_path g with [] => true | _ => false end)).
+      || (text_eqb (f_path s) [46; 46] && match f_path g with [] => true | _ => false end)
+      || (starts_with [46; 47; 47] (f_path g) && text_eqb (f_path s) (46 :: f_path g))).
 
 (* (code 14, D14 -- the normal form of a host-less path begins with "//" and was written without guard --
    is no longer attributed: repaired in uriNormalizeSyntaxEngine) *)
